@@ -14,7 +14,8 @@ RULE = ("one call of length/separator/is-bracketed/nth/set-nth/append/join/index
         "(numbers in several spellings, quoted/unquoted strings, null, booleans, nested lists and maps) with every "
         "separator (space, comma, slash, none) x bracket combination that can be written or built (0- and 1-element lists with an "
         "explicit separator through append/join; outer lists of such short lists searched by index; == between them in both orders), singleton values, maps of 0-3 "
-        "entries, argument lists (through a `$a...` parameter); nth/set-nth with every index in [-len-2, len+2] plus huge "
+        "entries, argument lists (through a `$a...` parameter; empty and non-empty ones also as first list of append/join "
+        "with the separator left to auto); nth/set-nth with every index in [-len-2, len+2] plus huge "
         "ones; distinct = distinct call; non-trivial = the list argument is not a plain unbracketed space list")
 EXHAUSTIVE = {"quick": False, "thorough": False}
 TRUSTED = ["Spec/SassLists.v: reference list semantics written from the Sass documentation",
@@ -124,6 +125,24 @@ def gen_cases(ctx, tier):
               {"fn": "index", "l": lst([lst([], "space"), lst([], "comma")], "comma"), "x": lst([], "comma")},
               {"fn": "eq", "a": SP1, "b": CM1}, {"fn": "eq", "a": CM1, "b": SP1},
               {"fn": "eq", "a": lst([], "space"), "b": lst([], None)}, {"fn": "eq", "a": lst([s("a")], None, True), "b": lst([s("a")], "space", True)}]
+    # seeded change C28-2: an argument list (also the EMPTY one) is a comma list when it is the first list of
+    # append / join with the separator left to auto
+    E0 = ("args", [])
+    cases += [{"fn": "append", "l": E0, "x": s("x"), "sep": None}, {"fn": "append", "l": E0, "x": s("x"), "sep": s("auto")},
+              {"fn": "join", "l1": E0, "l2": lst([s("y"), s("z")]), "sep": None, "bra": None},
+              {"fn": "join", "l1": E0, "l2": lst([], None), "sep": None, "bra": None},
+              {"fn": "join", "l1": E0, "l2": s("y"), "sep": s("auto"), "bra": T},
+              {"fn": "separator", "l": E0}, {"fn": "length", "l": E0}, {"fn": "set_nth", "l": E0, "n": 1, "x": s("x")},
+              {"fn": "append", "l": ("args", [num("1")]), "x": s("x"), "sep": None},
+              {"fn": "join", "l1": ("args", [num("1"), num("2")]), "l2": lst([s("y"), s("z")]), "sep": None, "bra": None}]
+    for _ in range(25 if tier == "quick" else 250):
+        a = ("args", [rng.choice(ITEMS) for _ in range(rng.choice([0, 0, 0, 1, 2, 3]))])
+        cases.append({"fn": "append", "l": a, "x": rng.choice(ITEMS), "sep": rng.choice([None, None, s("auto")])})
+        l2 = rand_list(rng, 3)
+        if l2[0] == "args":
+            l2 = lst(l2[1], "comma") if l2[1] else lst([], None)
+        cases.append({"fn": "join", "l1": a, "l2": l2, "sep": rng.choice([None, None, s("auto")]), "bra": rng.choice(BRAV)})
+        cases.append({"fn": rng.choice(["separator", "length", "is_bracketed"]), "l": a})
     for _ in range(70 if tier == "quick" else 700):
         outer, probe = rand_short_outer(rng)
         cases.append({"fn": "index", "l": outer, "x": probe})
